@@ -15,7 +15,8 @@
 (*   doc    \in {"wf","malformed","empty","hostile","dot","big"} (big: well-  *)
 (*            formed, more than 1 MiB, many roots; hostile: a name          *)
 (*            with '/': fine for output, invalid for mkdir/verify/dry-run) *)
-(*   stdout \in {"pipe","closed","full"}                                   *)
+(*   stdout \in {"pipe","closed","full","broken"} (broken: a pipe whose     *)
+(*            reader has gone: the first write fails with EPIPE / SIGPIPE)  *)
 (*   watch: output --watch renders the file, then again whenever its       *)
 (*          modification time changes, until it is killed: no exit status  *)
 (*          (why = "watching"); library failures are printed over, not     *)
@@ -75,6 +76,13 @@ FlagTok(f, v, sp) ==
     [] sp = "short" -> [k |-> "flag", name |-> AliasOf(f), dashes |-> 1, val |-> v, attached |-> FALSE]
     [] OTHER        -> [k |-> "flag", name |-> f, dashes |-> 2, val |-> IF f \in BoolFlags THEN "true" ELSE v, attached |-> TRUE]
 
+\* a switch: written when it is on; the "eq" spelling also writes the switches of the command that are OFF, as --name=false
+Switch(f, on, inv) ==
+  IF on THEN <<FlagTok(f, "", inv.sp)>>
+  ELSE IF inv.sp = "eq" /\ inv.sub \in DOMAIN FlagsOf /\ f \in FlagsOf[inv.sub]
+       THEN <<[k |-> "flag", name |-> f, dashes |-> 2, val |-> "false", attached |-> TRUE]>>
+       ELSE <<>>
+
 RECURSIVE RevSeq(_)
 RevSeq(s) == IF s = <<>> THEN <<>> ELSE Append(RevSeq(Tail(s)), Head(s))
 SeqOfSet(S) == IF S = {} THEN <<>> ELSE LET x == CHOOSE x \in S : TRUE IN <<x>>   \* (at most one extension in the models)
@@ -83,20 +91,20 @@ SeqOfSet(S) == IF S = {} THEN <<>> ELSE LET x == CHOOSE x \in S : TRUE IN <<x>> 
 FlagToks(inv) ==
   LET sp == inv.sp
       fs == (IF inv.sub = "output" /\ inv.format # "" THEN <<FlagTok("format", inv.format, sp)>> ELSE <<>>)
-         \o (IF inv.massive THEN <<FlagTok("massive", "", sp)>> ELSE <<>>)
+         \o Switch("massive", inv.massive, inv)
          \o (IF inv.mtimeout THEN <<FlagTok("massive-timeout", "1ns", sp)>> ELSE <<>>)
          \o (IF inv.usage = "timeout0" THEN <<FlagTok("massive-timeout", "0s", sp)>> ELSE <<>>)
          \o (IF inv.usage = "timeoutbad" THEN <<FlagTok("massive-timeout", "soon", sp)>> ELSE <<>>)
-         \o (IF inv.watch THEN <<FlagTok("watch", "", sp)>> ELSE <<>>)
+         \o Switch("watch", inv.watch, inv)
          \o (CASE inv.file = "dash" -> <<FlagTok("file", "-", sp)>>
                [] inv.file = "existing" -> <<FlagTok("file", "in.md", sp)>>
                [] inv.file = "missing" -> <<FlagTok("file", "nope.md", sp)>>
                [] OTHER -> <<>>)
-         \o (IF inv.dryrun THEN <<FlagTok("dry-run", "", sp)>> ELSE <<>>)
+         \o Switch("dry-run", inv.dryrun, inv)
          \o [i \in 1..Len(SeqOfSet(inv.exts)) |-> FlagTok("extension", SeqOfSet(inv.exts)[i], sp)]
          \o (IF inv.target # "" THEN <<FlagTok("target-dir", inv.target, sp)>> ELSE <<>>)
-         \o (IF inv.strict THEN <<FlagTok("strict", "", sp)>> ELSE <<>>)
-         \o (IF inv.desc THEN <<FlagTok("description", "", sp)>> ELSE <<>>)
+         \o Switch("strict", inv.strict, inv)
+         \o Switch("description", inv.desc, inv)
   IN IF sp = "eq" THEN RevSeq(fs) ELSE fs
 
 Lexed(inv) ==
@@ -138,6 +146,7 @@ DecodeFlags(c, ts, acc) ==
     ELSE LET f == CanonFlag(c, t.name) IN
       IF f = "?" THEN [acc EXCEPT !.unknown = TRUE]
       ELSE IF f \notin BoolFlags /\ t.val = "" THEN [acc EXCEPT !.noarg = TRUE]
+      ELSE IF f \in BoolFlags /\ t.attached /\ t.val = "false" THEN DecodeFlags(c, Tail(ts), acc)   \* --switch=false: the switch stays off
       ELSE DecodeFlags(c, Tail(ts), [acc EXCEPT !.set = @ \cup {<<f, IF f \in BoolFlags THEN "true" ELSE t.val>>}])
 Acc0(c) == [sub |-> c, set |-> {}, stray |-> FALSE, unknown |-> FALSE, noarg |-> FALSE]
 Decode(ts) ==
@@ -219,7 +228,7 @@ Outcome(inv, m) ==
   ELSE LET res == LibResult(inv, m)
            \* output refused by stdout: only /dev/full refuses; a CLOSED descriptor 1 is re-opened on
            \* /dev/null by the Go runtime at start-up, so every write is accepted
-           wr  == WritesStdout(inv) /\ res = "nil" /\ inv.stdout = "full"
+           wr  == WritesStdout(inv) /\ res = "nil" /\ inv.stdout \in {"full", "broken"}
        IN [exit0 |-> res = "nil" /\ ~wr, called |-> Dispatch(inv).op # "info",
            made |-> m \/ (Dispatch(inv).op = "mkdir" /\ res = "nil"),
            why |-> IF res # "nil" THEN "library" ELSE IF wr THEN "stdout" ELSE "ok"]
